@@ -171,4 +171,102 @@ theorem switch_sim {cfg : Cfg} {B O : Buf} {start : Nat} {u : Bool} {L : Lay}
     have := h.ring1 (by rw [hBf]; decide) hO
     rw [this]; rfl
 
+/-- an accepted Flush procedure: `flush()` of the buffer that is being filled -/
+theorem flush_sim {cfg : Cfg} {B O : Buf} {start : Nat} {u : Bool} {L : Lay}
+    (h : SimB cfg B O start u L) (hok : (Buf.flush cfg.page B).2.2 = true) :
+    flashes (Buf.flush cfg.page B).2.1 = (L.flush cfg).2 ∧
+    SimB cfg (Buf.flush cfg.page B).1 O start u (L.flush cfg).1 := by
+  unfold Buf.flush at hok ⊢
+  split at hok
+  · exact absurd hok (by simp)
+  · next hc =>
+    rw [if_neg hc]
+    simp only [Bool.or_eq_true, decide_eq_true_eq, not_or, ne_eq, Decidable.not_not] at hc
+    obtain ⟨hf, hp0⟩ := hc
+    obtain ⟨hA, hptr, hpl, hcur, hdata⟩ := h.cur.1 hf
+    have himg := pageImage_full hA hpl hcur hptr hdata [] (cfg.page - B.ptr) (by simp)
+    simp only [List.append_nil, List.length_nil, Nat.add_zero] at himg
+    have hne : cfg.page ≠ B.ptr := by omega
+    simp only [if_pos hne]
+    refine ⟨?_, ?_⟩
+    · unfold Lay.flush
+      rw [flashes_append]
+      simp only [flashes, List.filter_cons, List.filter_nil, himg]
+      rfl
+    · refine ⟨?_, h.crc, ?_, ⟨fun hx => absurd hx (by simp), fun _ => rfl⟩, h.ofill, ?_, ?_, ?_⟩
+      · show start = L.cur + L.pend.length + ([] : List UInt8).length
+        have := h.start; simp only [List.length_nil]; omega
+      · have hb : B.flashing = 0 := by unfold Buf.flashing; rw [hf]; rfl
+        have := h.busy
+        show (1 : Nat) + O.flashing = L.busy + 1
+        omega
+      · intro hi; exact absurd hi (by simp)
+      · intro _; exact h.ring1 (by rw [hf]; decide)
+      · intro _; exact h.ring2 (by rw [hf]; decide)
+
+theorem free_st (b : Buf) : b.free.st = .idle := rfl
+theorem free_crc (b : Buf) : b.free.crc = b.crc := rfl
+theorem free_flashing (b : Buf) : b.free.flashing = 0 := rfl
+
+/-- `bootloader_progress_data` frees `buffers_[used_buffer_]`; with a page flash outstanding that is
+    a buffer in state `flashing`. `used_buffer_ == next_buffer_`: -/
+theorem progress_sim_next {cfg : Cfg} {B O : Buf} {start : Nat} {L : Lay}
+    (h : SimB cfg B O start true L) (hb : 0 < L.busy) :
+    SimB cfg B.free O start false { L with busy := L.busy - 1 } := by
+  have hBi : B.st ≠ .idle := fun hi => absurd (h.idle hi).2 (by decide)
+  have hOf : O.st ≠ .flashing := fun hfl => absurd (h.ring2 hBi hfl) (by decide)
+  have hOi : O.st = .idle := by
+    rcases st_cases O with x | x | x
+    · exact x
+    · exact absurd x h.ofill
+    · exact absurd x hOf
+  have hO0 : O.flashing = 0 := by unfold Buf.flashing; rw [hOi]; rfl
+  have hBf : B.st = .flashing := by
+    rcases st_cases B with x | x | x
+    · exact absurd x hBi
+    · have : B.flashing = 0 := by unfold Buf.flashing; rw [x]; rfl
+      have := h.busy; omega
+    · exact x
+  have hB1 : B.flashing = 1 := by unfold Buf.flashing; rw [hBf]; rfl
+  have hpend : L.pend = [] := h.cur.2 (by rw [hBf]; decide)
+  refine ⟨h.start, h.crc, ?_, ⟨fun hx => absurd hx (by simp [Buf.free]), fun _ => hpend⟩, h.ofill,
+    fun _ => ⟨hOi, rfl⟩, fun hx => absurd rfl hx, fun hx => absurd rfl hx⟩
+  have := h.busy
+  show B.free.flashing + O.flashing = L.busy - 1
+  rw [free_flashing]; omega
+
+/-- `used_buffer_ != next_buffer_`: -/
+theorem progress_sim_other {cfg : Cfg} {B O : Buf} {start : Nat} {L : Lay}
+    (h : SimB cfg B O start false L) (hb : 0 < L.busy) :
+    SimB cfg B O.free start true { L with busy := L.busy - 1 } := by
+  have hBi : B.st ≠ .idle := by
+    intro hi
+    have hO := (h.idle hi).1
+    have h1 : B.flashing = 0 := by unfold Buf.flashing; rw [hi]; rfl
+    have h2 : O.flashing = 0 := by unfold Buf.flashing; rw [hO]; rfl
+    have := h.busy; omega
+  have hOf : O.st = .flashing := by
+    rcases st_cases O with x | x | x
+    · exact absurd (h.ring1 hBi x) (by decide)
+    · exact absurd x h.ofill
+    · exact x
+  have hO1 : O.flashing = 1 := by unfold Buf.flashing; rw [hOf]; rfl
+  refine ⟨h.start, h.crc, ?_, h.cur, (by simp [Buf.free]), fun hi => absurd hi hBi, fun _ _ => rfl,
+    fun _ hx => absurd hx (by simp [Buf.free])⟩
+  have := h.busy
+  show B.flashing + O.free.flashing = L.busy - 1
+  rw [free_flashing]; omega
+
+/-- an accepted Start Flash procedure -/
+theorem startFlash_sim {cfg : Cfg} (hp : 0 < cfg.page) (b0 b1 : Buf) (s : Nat) :
+    SimB cfg (Buf.setStart cfg.page b0.free s (crcOfAddress s) 0).1 b1.free s true
+      { cur := s, pend := [], crc := crcOfAddress s, busy := 0 } := by
+  refine ⟨rfl, rfl, rfl, ⟨fun _ => ⟨sub_mod_aligned _ _, Nat.mod_lt _ hp, Nat.zero_le _, ?_, ?_⟩,
+    fun hx => absurd rfl hx⟩, (by simp [Buf.free]), fun hi => absurd hi (by simp [Buf.setStart]),
+    fun _ _ => rfl, fun _ hx => absurd hx (by simp [Buf.free])⟩
+  · show s = s - s % cfg.page + (s % cfg.page - 0)
+    have := Nat.mod_le s cfg.page; omega
+  · show memRange (s - s % cfg.page) (s % cfg.page) = memRange (s - s % cfg.page) (s % cfg.page - 0) ++ []
+    simp
+
 end BluetoeModel.Bootloader
